@@ -523,7 +523,7 @@ def run_firstuse(ns, ctx, spec):
 
     owners = [ns.curves, ns.der, K.VerifyingKey, K.SigningKey]
     codes = yieldrun.code_objects_of(*owners)
-    results, yields = yieldrun.run_concurrently(bodies, codes, sleep=0.0002, max_yields=6000, timeout=120)
+    results, yields = yieldrun.run_concurrently(bodies, codes, sleep=0.0002, max_yields=6000, timeout=120, stagger=(0.0, 0.001, 0.004, 0.015)[(i // 2) % 4])
     ctx.add_extra("yield_points_hit_in_first_use_runs", yields)
     ctx.bin("first_decodes_of_the_process_made_by_concurrent_threads")
     ctx.bin("first_use_threads_%d" % nthreads)
